@@ -14,6 +14,7 @@
 import NakenVerif.Link.ProofsProps
 import NakenVerif.Link.ProofsUniverse
 import NakenVerif.Link.ProofsNoFault
+import NakenVerif.Link.ProofsElfSound
 import NakenVerif.Link.Examples
 
 namespace NakenVerif.Link.C20
@@ -153,6 +154,36 @@ theorem readers_never_read_outside (files : List (Name × Bytes)) (imports : Lis
     (fuel : Nat) :
     (match addFiles files [] with | .fault => False | _ => True) ∧ linkAll (envOf imports) cfg p fuel ≠ .fault :=
   ⟨addFiles_ne_fault files [], linkAll_ne_fault (envOf_noFault imports) cfg p fuel⟩
+
+/-! ## 5b. what the readers' answers mean in the file (ELF gABI reading; soundness) -/
+
+/-- A hit of `imports_obj_find_code_from_symbol` is an entry of a SHT_SYMTAB section whose name, read in the
+SHT_STRTAB section called `.strtab`, is the requested symbol, whose `st_size` is not 0 and whose `st_shndx` is the
+index of a (non-NOBITS) section called `.text`; the function lies inside that section and the reported file offset is
+the section's `sh_offset + st_value`: "its bytes are those of the object file". -/
+theorem found_function_is_text_symbol {v : View} {sym : Name} {c : Elf.Code}
+    (h : Elf.findCode v sym = some (some c)) :
+    ∃ (hd : Elf.Hdr) (no ns : Nat) (symtab strtab : Elf.Tab) (textIdx textTy textOff textSize q : Nat),
+      Elf.WF v hd no ns ∧
+      (∃ j, Elf.SecIs v hd no j Elf.SHT_SYMTAB symtab.off symtab.size none) ∧
+      (∃ j, Elf.SecIs v hd no j Elf.SHT_STRTAB strtab.off strtab.size (some Elf.dotStrtab)) ∧
+      textTy ≠ Elf.SHT_NOBITS ∧ Elf.SecIs v hd no textIdx textTy textOff textSize (some Elf.dotText) ∧
+      Elf.EntryIs v symtab strtab q sym c.functionOffset c.functionSize textIdx ∧
+      c.functionSize ≠ 0 ∧ c.functionOffset + c.functionSize ≤ textSize ∧ c.fileOffset = textOff + c.functionOffset :=
+  Elf.findCode_sound h
+
+/-- A name returned by `imports_obj_find_name_from_offset` for offset `fo` is the name of the symbol
+(`r_info >> 8`) of an entry of the SHT_REL section called `.rel.text` whose `r_offset` is `fo`; for an unnamed symbol
+it is what the "local offset" lookup returns (known finding `section-symbol-call-misbound`). -/
+theorem call_name_is_relocation_symbol {v : View} {fo lo : Nat} {g : Name}
+    (h : Elf.nameAt v fo lo = some (some g)) :
+    ∃ (hd : Elf.Hdr) (no ns : Nat) (symtab strtab reltab : Elf.Tab) (q : Nat),
+      Elf.WF v hd no ns ∧
+      (∃ j, Elf.SecIs v hd no j Elf.SHT_SYMTAB symtab.off symtab.size none) ∧
+      (∃ j, Elf.SecIs v hd no j Elf.SHT_STRTAB strtab.off strtab.size (some Elf.dotStrtab)) ∧
+      (∃ j, Elf.SecIs v hd no j Elf.SHT_REL reltab.off reltab.size (some Elf.dotRelText)) ∧
+      Elf.RelIs v symtab strtab reltab q fo lo g :=
+  Elf.nameAt_sound h
 
 /-! ## 6. termination of the closure computation -/
 
